@@ -54,17 +54,27 @@ func VerifC21_standalone() {
 		sel = verifNondetInt(-2, 4) // any selector answer, also outside the node list
 		s.nodeSelector = func(uint16, []NodeInfo) int { return sel }
 	}
-	if n == 1 && verifChoose(2) == 0 {
+	switch kind := verifChoose(5); {
+	case kind == 0 && n == 1:
 		s.Do(context.Background(), cs[0])
-	} else {
+	case kind == 1 && n == 1:
+		s.DoStream(context.Background(), cs[0])
+		verifReach("stream")
+	case kind == 2 && n == 1:
+		s.Receive(context.Background(), cs[0], func(PubSubMessage) {})
+		verifReach("receive")
+	case kind == 3:
+		s.DoMultiStream(context.Background(), cs...)
+		verifReach("multistream")
+	default:
 		s.DoMulti(context.Background(), cs...)
 	}
 	all := hasPred
 	for i := 0; i < n; i++ {
 		all = all && optIn[i]
 	}
-	onReplica := len(r1.log)+len(r2.log) > 0
-	verifAssert(len(pc.log)+len(r1.log)+len(r2.log) == n, "the whole call goes to exactly one node")
+	onReplica := len(r1.log)+len(r2.log)+len(r1.slog)+len(r2.slog) > 0
+	verifAssert(len(pc.log)+len(r1.log)+len(r2.log)+len(pc.slog)+len(r1.slog)+len(r2.slog) == n, "the whole call goes to exactly one node")
 	if onReplica {
 		verifAssert(all, "a replica is used only when SendToReplicas opts in every command of the call")
 		verifReach("replica")
@@ -76,7 +86,7 @@ func VerifC21_standalone() {
 		verifReach("fallback")
 	}
 	if !all {
-		verifAssert(len(pc.log) == n, "everything else goes to the primary")
+		verifAssert(len(pc.log)+len(pc.slog) == n, "everything else goes to the primary")
 	}
 }
 
